@@ -53,6 +53,16 @@ CLAIMED = {
             "For every member and epoch: a leaf key exists; every stored direct-path key sits at a non-blank node and opens an HPKE ciphertext sealed to that node's public key; no key for blank nodes or beyond the root; after a commit with update path every non-blank node on the committer's direct path carries a key absent from the previous epoch's tree; once a member's leaf key changed, the old key bytes occur nowhere in its complete state (H1).",
             "trusted: hooks H1/H3, reference tree model for path positions",
             "DESIGN.md §6.C09"),
+    "C05": ("exploration",
+            "deterministic simulation of message streams under duplication, reordering, loss, generation gaps around the 1024 window and crash/reload of either side; recording crypto seam for global (key, nonce) uniqueness; per-sender ratchet-position model for accept / reject",
+            "Streams of application and encrypted handshake messages from several senders are delivered in seeded permutations with duplicates and drops; gaps of 1, 5, 40, 1023, 1024, 1025 and 1030 generations are created by a burst whose last message overtakes the others. Oracle 1: every (key, nonce) pair passed to the provider's AEAD seal by any member of the world is unique, also after a crash that rolls a sender's ratchet back (reuse guard). Oracle 2: a receiver accepts a message iff it has not accepted it before and its generation is at most 1024 ahead of the receiver's position for that sender and key type (model), a duplicate or an out-of-window message is rejected with the complete member state unchanged, and everything inside the window still decrypts with the true sender and payload. Each content key / nonce and sender-data key / nonce is additionally compared with the reference secret tree (C13 model).",
+            "trusted: the generation counters of the simulator's model (cross-checked by the reference key derivation agreeing with the recorded keys)",
+            "DESIGN.md §6.C05"),
+    "C13": ("exploration",
+            "refinement against an independent reference model (RFC 9420 formulas on bare sha2/hmac) run in lock-step with every simulated epoch: inputs are the contexts, PSK lists, tree sizes and transcripts that real multi-party histories produce; joiner secrets are obtained by the harness opening the GroupSecrets of Welcomes itself",
+            "For every epoch transition whose joiner secret the harness can obtain independently (it opens the joiner's GroupSecrets with the joiner's init key, or the commit has no path so the commit secret is zero): joiner secret = ExpandWithLabel(Extract(init[n-1], commit_secret)) with the commit secret walked up from the joiner's path secret through the reference tree; PSK secret chain from the PSK ids in GroupSecrets and the stored / resumption values; welcome key+nonce, epoch secret and the derived exporter, authentication, external, membership, init, resumption, sender-data and confirmation secrets vs every member's hook-H2 values; confirmation tag, confirmed and interim transcript hashes (public commits), membership tag of every public member message, epoch authenticator, export_secret for random label / context / length in {0,1,16,32,33,64,255}; for every PrivateMessage the content key, nonce (modulo reuse guard) and the sender-data key / nonce from the ciphertext sample vs the reference secret tree for (tree size, leaf, type, generation). Suites 1-3 (SHA-256); other hashes via C14's provider runs.",
+            "trusted: sha2 / hmac crates, my reading of RFC 9420 (a common-mode error in both the library and the reference is the residual risk); HPKE open of GroupSecrets uses the provider primitive",
+            "DESIGN.md §6.C13"),
 }
 
 NOT_APPLICABLE = {
